@@ -40,7 +40,8 @@ TSpher == /\ IsEvent("spher")
           /\ LET t == Tr[l] IN
              /\ t.ex /\ t.xyz = <<t.r * C(t.az) * S(t.el), t.r * S(t.az) * S(t.el), t.r * C(t.el) * Dn(t.az)>>
              /\ t.backr = t.r /\ t.backel = CS(t.el) /\ (S(t.el) # 0 => t.backaz = CS(t.az))
-TraceNext == TReset \/ TEuler \/ TSmart \/ TNorm \/ TNormLat \/ TRot2 \/ TPolar \/ TSpher
+TGeneric == IsEvent("generic") /\ Tr[l].inRange /\ ResidualsOK(Tr[l].res, Tr[l].float = 1)
+TraceNext == TGeneric \/ TReset \/ TEuler \/ TSmart \/ TNorm \/ TNormLat \/ TRot2 \/ TPolar \/ TSpher
 TraceSpec == TraceInit /\ [][TraceNext]_l
 TraceAccepted == TLCGet("stats").diameter - 1 = Len(Tr)
 =============================================================================
